@@ -76,6 +76,27 @@ def option_names():
     return names + ['zzunknown', 'ajax', 'mode', 'start', 'es5']
 
 
+_variants = {}
+
+
+def choice_variants(name):
+    """Every value the option registers as a choice, and its upper-case / capitalised / padded spellings."""
+    if not _variants:
+        from dashlive.server.options.repository import OptionsRepository
+        for o in OptionsRepository.get_dash_options():
+            vals = []
+            for c in (o.cgi_choices or ()):
+                v = c[1] if isinstance(c, tuple) else c
+                if v is None:
+                    continue
+                v = str(v)
+                for x in (v, v.upper(), v.capitalize(), v + ' ', ' ' + v):
+                    if x not in vals:
+                        vals.append(x)
+            _variants[o.cgi_name] = vals
+    return _variants.get(name, [])
+
+
 SYNTH_RE = re.compile(rb'^Synthetic (\d{3}) for ')
 
 
@@ -121,7 +142,7 @@ def hostile_item(arg):
     W.set_now(NOW)
     values = VALUES if (tier != 'quick' or path in PRIMARY) else QUICK_VALUES
     for name in names:
-        for v in values:
+        for v in values + [x for x in choice_variants(name) if x not in values]:
             url = path + crawl.make_query({name: v})
             r = w.get(url)
             acc.state((path, name, v[:16], len(v)))
